@@ -27,6 +27,8 @@ import (
 	"math"
 	"reflect"
 	"runtime"
+	"runtime/debug"
+	"slices"
 	"sort"
 	"strconv"
 	"strings"
@@ -57,9 +59,52 @@ func laySize(l int) int {
 	return n
 }
 
-type recLogger struct{ msgs []string }
+// recLogger records which of the reorderer's log lines a push produced (coverage only, never the oracle).
+type recLogger struct{ mask int }
 
-func (l *recLogger) Log(_ logger.Level, format string, _ ...any) { l.msgs = append(l.msgs, format) }
+const (
+	logSkip = 1 << iota
+	logCount
+	logBytes
+	logOther
+)
+
+func (l *recLogger) Log(_ logger.Level, format string, _ ...any) {
+	switch {
+	case strings.Contains(format, "skipping"):
+		l.mask |= logSkip
+	case strings.Contains(format, "too many reordered subgroups"):
+		l.mask |= logCount
+	case strings.Contains(format, "too many reordered bytes"):
+		l.mask |= logBytes
+	default:
+		l.mask |= logOther
+	}
+}
+
+var logNames = func() [16]string {
+	var t [16]string
+	for m := range t {
+		var p []string
+		if m&logSkip != 0 {
+			p = append(p, "skipping out-of-order subgroup")
+		}
+		if m&logCount != 0 {
+			p = append(p, "too many reordered subgroups, flushing")
+		}
+		if m&logBytes != 0 {
+			p = append(p, "too many reordered bytes, flushing")
+		}
+		if m&logOther != 0 {
+			p = append(p, "(other)")
+		}
+		t[m] = strings.Join(p, "+")
+		if m == 0 {
+			t[m] = "-"
+		}
+	}
+	return t
+}()
 
 type pendEntry struct {
 	id   uint64
@@ -78,35 +123,49 @@ type stepObs struct {
 	out  []int // push indices handed on by this push, in order; -1 = a pointer that was never pushed
 	err  bool
 	snap snapshot
-	logs []string
+	logs int
 }
 
-func takeSnap(r *reorderer.Reorderer, idx map[*subgroup.SubGroup]int) snapshot {
-	init, cur, pb, pend := reorderer.VerifC33State(r)
+func indexOf(sgs []*subgroup.SubGroup, x *subgroup.SubGroup) int {
+	for i, p := range sgs {
+		if p == x {
+			return i
+		}
+	}
+	return -1
+}
+
+func takeSnap(r *reorderer.Reorderer, sgs []*subgroup.SubGroup) snapshot {
+	var buf [8]reorderer.VerifC33Held
+	init, cur, pb, pend := reorderer.VerifC33State(r, buf[:0])
 	s := snapshot{init: init, cur: cur, pbytes: pb}
 	if len(pend) > 0 {
 		s.pend = make([]pendEntry, 0, len(pend))
-		for id, sg := range pend {
-			e := pendEntry{id: id, idx: -1}
-			if sg != nil {
-				if i, ok := idx[sg]; ok {
-					e.idx = i
-				}
-				for _, o := range sg.Objects {
+		for _, h := range pend {
+			e := pendEntry{id: h.ID, idx: -1}
+			if h.SG != nil {
+				e.idx = indexOf(sgs, h.SG)
+				for _, o := range h.SG.Objects {
 					e.size += len(o.Payload)
 				}
 			}
+			// insertion sort by id
 			s.pend = append(s.pend, e)
+			for k := len(s.pend) - 1; k > 0 && s.pend[k-1].id > s.pend[k].id; k-- {
+				s.pend[k-1], s.pend[k] = s.pend[k], s.pend[k-1]
+			}
 		}
-		sort.Slice(s.pend, func(a, b int) bool { return s.pend[a].id < s.pend[b].id })
 	}
 	return s
 }
 
 func makeSG(o op) *subgroup.SubGroup {
 	sg := &subgroup.SubGroup{Header: subgroup.Header{GroupID: o.id}}
-	for _, n := range allLayouts[o.lay] {
-		sg.Objects = append(sg.Objects, subgroup.Object{Payload: make([]byte, n)})
+	if lay := allLayouts[o.lay]; len(lay) > 0 {
+		sg.Objects = make([]subgroup.Object, len(lay))
+		for k, n := range lay {
+			sg.Objects[k].Payload = make([]byte, n)
+		}
 	}
 	return sg
 }
@@ -116,29 +175,28 @@ func execute(c config, hist []op) (init snapshot, obs []stepObs, panicked int, p
 	lg := &recLogger{}
 	r := &reorderer.Reorderer{MaxReordered: c.mr, MaxPendingBytes: c.mb, Parent: lg}
 	r.Initialize()
-	idx := make(map[*subgroup.SubGroup]int, len(hist))
-	init = takeSnap(r, idx)
+	sgs := make([]*subgroup.SubGroup, 0, len(hist))
+	init = takeSnap(r, sgs)
 	obs = make([]stepObs, 0, len(hist))
 	panicked = -1
 	for i, o := range hist {
 		sg := makeSG(o)
-		idx[sg] = i
-		lg.msgs = nil
+		sgs = append(sgs, sg)
+		lg.mask = 0
 		var out []*subgroup.SubGroup
 		var err error
 		p, _ := vcommon.Recover(func() { out, err = r.Push(sg) })
 		if p != nil {
 			return init, obs, i, p
 		}
-		so := stepObs{err: err != nil, logs: lg.msgs}
-		for _, x := range out {
-			if j, ok := idx[x]; ok {
-				so.out = append(so.out, j)
-			} else {
-				so.out = append(so.out, -1)
+		so := stepObs{err: err != nil, logs: lg.mask}
+		if len(out) > 0 {
+			so.out = make([]int, len(out))
+			for k, x := range out {
+				so.out[k] = indexOf(sgs, x)
 			}
 		}
-		so.snap = takeSnap(r, idx)
+		so.snap = takeSnap(r, sgs)
 		obs = append(obs, so)
 	}
 	return init, obs, -1, nil
@@ -168,13 +226,13 @@ type stepClass struct {
 	gap      bool // handed-on ids skip at least one id (forced flush)
 	pendB    int
 	pendA    int
-	log      string
+	log      int
 	replaced bool
 }
 
 func (sc stepClass) String() string {
 	return fmt.Sprintf("%s dup=%v out=%d self=%v gap=%v pend=%d->%d log=%s", sc.rel, sc.dup, sc.nOut, sc.self, sc.gap,
-		sc.pendB, sc.pendA, sc.log)
+		sc.pendB, sc.pendA, logNames[sc.log&15])
 }
 
 func hasIdx(p []pendEntry, idx int) bool {
@@ -212,10 +270,7 @@ func (m *refModel) step(o op, before snapshot, so stepObs) (vs []viol, sc stepCl
 	sc.pendB = len(before.pend)
 	sc.pendA = len(so.snap.pend)
 	sc.nOut = len(so.out)
-	sc.log = "-"
-	if len(so.logs) > 0 {
-		sc.log = strings.Join(so.logs, "+")
-	}
+	sc.log = so.logs
 	mustDeliverNow := sc.rel == "next"
 
 	prev := m.last
@@ -359,13 +414,13 @@ func (s *stats) merge(o *stats) {
 
 func (s *stats) note(sc stepClass, o op, retroHeld bool) {
 	s.classes[sc]++
-	if strings.Contains(sc.log, "too many reordered subgroups") {
+	if sc.log&logCount != 0 {
 		s.collisions["flush forced by MaxReordered"]++
 	}
-	if strings.Contains(sc.log, "too many reordered bytes") {
+	if sc.log&logBytes != 0 {
 		s.collisions["flush forced by MaxPendingBytes"]++
 	}
-	if strings.Contains(sc.log, "skipping") {
+	if sc.log&logSkip != 0 {
 		s.collisions["stale or repeated id dropped"]++
 	}
 	if sc.replaced {
@@ -427,7 +482,8 @@ func (ru *runner) judge(c config, hist []op, st *stats) (key string, lastClass s
 	ru.execCount.Add(1)
 	st.execs++
 	st.pushes += int64(len(hist))
-	m := &refModel{c: c}
+	n := len(hist)
+	m := &refModel{c: c, ops: make([]op, 0, n), delivAt: make([]int, 0, n), retroCnt: make([]int, 0, n), retroBytes: make([]int, 0, n)}
 	before := init
 	var all []viol
 	for i, so := range obs {
@@ -631,6 +687,7 @@ func mkOps(ids []uint64, nLay int) []op {
 
 func main() {
 	r := vcommon.Start("C33", "model_checking")
+	debug.SetGCPercent(400) // millions of tiny short-lived executions: the live heap is a few MB
 
 	want := []string{"MaxReordered", "MaxPendingBytes", "Parent", "initialized", "mu", "curGroupID", "pending", "pendingBytes"}
 	if got := reorderer.VerifC33Fields(); !reflect.DeepEqual(got, want) {
@@ -642,22 +699,23 @@ func main() {
 		ids   []uint64
 		nLay  int
 		len   int
-		maxMR int // only configurations with MaxReordered <= maxMR
+		maxMR int   // only configurations with MaxReordered <= maxMR
+		mbs   []int // only configurations with MaxPendingBytes in this set (nil: all)
 	}
 	ids := []uint64{0, 1, 2, 3, 4, 5, M - 1, M}
 	nLay := 3
 	mrs := []int{0, 1, 2, 3}
 	mbs := []int{0, 5, 15, 100}
 	depthCap := 14
-	rawPlans := []rawPlan{{ids, nLay, 4, 99}}
+	rawPlans := []rawPlan{{ids, nLay, 3, 99, nil}, {ids, nLay, 4, 99, []int{5, 15}}}
 	if r.Thorough() {
-		rawPlans = []rawPlan{{ids, nLay, 5, 3}}
+		rawPlans = []rawPlan{{ids, nLay, 5, 3, nil}}
 		ids = []uint64{0, 1, 2, 3, 4, 5, 6, 7, M - 1, M}
 		nLay = 4
 		mrs = []int{0, 1, 2, 3, 4, 5}
 		mbs = []int{0, 5, 15, 59, 100, 1000}
 		depthCap = 16
-		rawPlans = append(rawPlans, rawPlan{ids, nLay, 3, 99})
+		rawPlans = append(rawPlans, rawPlan{ids, nLay, 3, 99, nil})
 	}
 	ops := mkOps(ids, nLay)
 	var cfgs []config
@@ -668,8 +726,14 @@ func main() {
 	}
 	planStr := ""
 	for _, pl := range rawPlans {
-		planStr += fmt.Sprintf("[ids %v x layouts %v, every sequence of length <= %d, configurations with MaxReordered <= %d] ",
-			idStrings(pl.ids), allLayouts[:pl.nLay], pl.len, pl.maxMR)
+		which := fmt.Sprintf("configurations with MaxReordered <= %d", pl.maxMR)
+		if pl.maxMR >= 99 {
+			which = "all configurations"
+		}
+		if pl.mbs != nil {
+			which += fmt.Sprintf(" with MaxPendingBytes in %v", pl.mbs)
+		}
+		planStr += fmt.Sprintf("[ids %v x layouts %v, every sequence of length <= %d, %s] ", idStrings(pl.ids), allLayouts[:pl.nLay], pl.len, which)
 	}
 	r.Rule = fmt.Sprintf("configurations MaxReordered in %v x MaxPendingBytes in %v; push alphabet = group ids %v x object layouts %v "+
 		"(payload sizes per object); merged breadth-first search to the fixpoint of the canonical-state set (depth cap %d) + raw "+
@@ -732,7 +796,7 @@ func main() {
 	var tasks []task
 	for ci, c := range cfgs {
 		for _, pl := range rawPlans {
-			if c.mr > pl.maxMR {
+			if c.mr > pl.maxMR || (pl.mbs != nil && !slices.Contains(pl.mbs, c.mb)) {
 				continue
 			}
 			po := mkOps(pl.ids, pl.nLay)
